@@ -27,15 +27,40 @@ rule("C14.j", "split set-up: the steps and nodal records of an interval are tran
               "the interval grid was renumbered 0..T-1, never with the renumbered steps", floor=2)
 rule("C14.k", "split set-up: the mapping that is re-based (original steps, index shift, asset index shift) is a copy - the mapping of the "
               "interval problem itself, whose index tells optimize() which variables are boolean, stays as the interval set-up made it", floor=2)
+rule("C14.n", "split set-up: what is looked up in the previous interval may be missing - an asset that starts later has no rows there, a whole "
+              "interval may have none: a per-asset value taken from the previous interval's mapping (map / reindex / merge / a maximum over a "
+              "selection) is not cast to an integer type without a default (fillna): the cast raises on NaN and no split problem is produced at all",
+     floor=0)
 rule("C14.f", "interval boundaries are consecutive pairs of one sequence extended to start at grid start and end at grid end", floor=3)
 rule("C18.c", "time steps and nodal records of an interval are re-based through the same array of original steps; records and "
               "duals are concatenated in interval order", floor=3, props=["C18", "C14"])
 
 
-@analysis("split", ["C04.d", "C14.c", "C14.f", "C18.c", "C14.h", "C15.k", "C15.m", "C14.j", "C14.k"])
+@analysis("split", ["C04.d", "C14.c", "C14.f", "C18.c", "C14.h", "C15.k", "C15.m", "C14.j", "C14.k", "C14.n"])
 def run(ctx):
     p = ctx.p
     fn = p.cls("Portfolio").methods.get("setup_split_optim_problem")
+    # ---- C14.n integer casts of look-ups that may find nothing
+    if fn is not None:
+        n_n = 0
+        for st in au.walk_stmts(fn.body):
+            for c in au.walk_own(st):
+                if not (isinstance(c, ast.Call) and au.method_name(c) == "astype" and c.args and "int" in au.U(c.args[0]) and isinstance(c.func, ast.Attribute)):
+                    continue
+                recv = c.func.value
+                chain = [x for x in au.walk_local(recv) if isinstance(x, ast.Call)]
+                names = [au.method_name(x) for x in chain]
+                lookup = [m for m in names if m in ("map", "reindex", "merge", "join", "max", "min", "get")]
+                if not lookup:
+                    continue
+                n_n += 1
+                filled = any(m in ("fillna", "nan_to_num", "where") for m in names)
+                ctx.ob("C14.n", fn, au.short(c, 80), filled,
+                       "%s is cast to an integer type, but the look-up finds nothing for an asset that had no rows in the previous interval (an asset that "
+                       "starts on day 3 of a horizon split by day): NaN cannot be cast - IntCastingNaNError, the split set-up fails where the unsplit problem "
+                       "is set up and solved" % au.short(recv, 60), node=c)
+        if n_n == 0:
+            ctx.ob("C14.n", fn, "integer casts of look-ups in the previous interval", True, ok_detail="none")
     ctx.require(fn is not None, "Portfolio.setup_split_optim_problem vanished")
     loops = [s for s in fn.body if isinstance(s, ast.For)]
     main = None
